@@ -8,7 +8,7 @@
    compactness >= 1). *)
 From Coq Require Import Reals List.
 From SM.specs Require Import C03_spec SourceFacts_spec.
-From SM.proofs Require Import Compiled SourceFacts.
+From SM.proofs Require Import Compiled SourceFactsLevels.
 
 Theorem C16_symbolic_parameters_are_values : symbolic_parameters_are_values.
 Proof. exact symbolic_parameters_are_values_proof. Qed.
